@@ -80,12 +80,17 @@ def configs(ck):
     masses = [1.51, 4.92, 172.5]
 
     def mk(qcd, kind, pt="unpol", method=None):
-        wall = masses[0] if rng.integers(2) or kind == "down-leg" else masses[1]
-        nfl = 3 if wall == masses[0] else 4
-        hi = masses[nfl - 2] if nfl < 5 else 300.0
+        # matching ratios != 1: with L = 0 the NLO matching of light partons is trivial and a wrong
+        # matching (direction, order) would be invisible
+        ratios = [float(rng.choice([0.8, 1.3, 1.6])), float(rng.choice([0.8, 1.3])), 1.0]
+        walls = [m * r for m, r in zip(masses, ratios)]
+        iw = 0 if rng.integers(2) or kind == "down-leg" else 1
+        wall = walls[iw]
+        nfl = 3 + iw
+        hi = walls[nfl - 2] if nfl < 5 else 300.0
         if kind == "patch":
             nf0 = int(rng.choice([4, 5]))
-            lo_, hi_ = (masses[0], masses[1]) if nf0 == 4 else (masses[1], 100.0)
+            lo_, hi_ = (walls[0], walls[1]) if nf0 == 4 else (walls[1], 100.0)
             s = sorted(float(np.exp(rng.uniform(np.log(lo_ * 1.05), np.log(hi_ * 0.95)))) for _ in range(3))
             s = [s[0], s[0] * 1.0 + (s[1] - s[0]) * 1.0, s[2]]
             order = [0, 1, 2] if rng.integers(3) else [0, 2, 1]  # sometimes overshoot and come back
@@ -94,16 +99,23 @@ def configs(ck):
         elif kind == "wall-below":  # split point below the wall
             mu0 = max(1.35, wall / float(rng.uniform(1.6, 2.2))) if nfl > 3 else 1.35
             if nfl > 3:
-                mu0 = max(mu0, masses[nfl - 4] * 1.05)
+                mu0 = max(mu0, walls[nfl - 4] * 1.05)
             mu1 = float(np.exp(rng.uniform(np.log(mu0 * 1.03), np.log(wall * 0.97)))) if wall * 0.97 > mu0 * 1.03 else wall * 0.99
             mu2 = min(wall * float(rng.uniform(1.5, 3.0)), hi * 0.95)
             init, mid, fin = [mu0, nfl], [mu1, nfl], [mu2, nfl + 1]
         elif kind == "wall-above":
             mu0 = max(1.35, wall / float(rng.uniform(1.3, 2.0)))
             if nfl > 3:
-                mu0 = max(mu0, masses[nfl - 4] * 1.05)
+                mu0 = max(mu0, walls[nfl - 4] * 1.05)
             mu1 = min(wall * float(rng.uniform(1.2, 1.8)), hi * 0.8)
             mu2 = min(mu1 * float(rng.uniform(1.3, 2.5)), hi * 0.95)
+            init, mid, fin = [mu0, nfl], [mu1, nfl + 1], [mu2, nfl + 1]
+        elif kind == "overshoot":  # target below the wall but in the upper scheme: the leg after the matching runs down
+            mu0 = max(1.35, wall / float(rng.uniform(1.4, 1.9)))
+            if nfl > 3:
+                mu0 = max(mu0, walls[nfl - 4] * 1.05)
+            mu1 = min(wall * float(rng.uniform(1.2, 1.6)), hi * 0.8)
+            mu2 = wall / float(rng.uniform(1.1, 1.35))
             init, mid, fin = [mu0, nfl], [mu1, nfl + 1], [mu2, nfl + 1]
         elif kind == "down-leg":  # start above the wall with the lower nf: first leg runs down
             mu0 = wall * float(rng.uniform(1.5, 2.5))
@@ -115,20 +127,20 @@ def configs(ck):
             mu1 = wall * float(rng.uniform(1.1, 1.4))
             mu2 = max(1.35, wall / float(rng.uniform(1.1, 1.3)))
             if nfl > 3:
-                mu2 = max(mu2, masses[nfl - 4] * 1.05)
+                mu2 = max(mu2, walls[nfl - 4] * 1.05)
             init, mid, fin = [mu0, nfl + 1], [mu1, nfl + 1], [mu2, nfl]
         meth = method or ("iterate-exact" if qcd > 1 else str(rng.choice(["iterate-exact", "truncated", "decompose-exact"])))
         return dict(
-            qcd=qcd, qed=0, method=meth, pt=pt, init=init, targets=[], masses=masses, ratios=[1.0, 1.0, 1.0], xgrid=[], degree=3,
+            qcd=qcd, qed=0, method=meth, pt=pt, init=init, targets=[], masses=masses, ratios=ratios, xgrid=[], degree=3,
             scvar=None, xif=1.0, inversion="exact", iters=1 if qcd == 1 else (24 if ck.quick else 40), alphas=0.118, alphaem=0.007496252, em_running=False,
             max_order=[10, 0], cores=5 if ck.quick else 4, n3lo_var=[0] * 7, fhmruvv=True, matching_order=None, scheme="POLE",
             _mid=mid, _final=fin, _seed=int(rng.integers(1 << 30)), _replicas=2, _grids=[12, 24] if ck.quick else [14, 28], _kind=kind,
         )
 
     if ck.quick:
-        cfgs = [mk(1, "wall-above"), mk(1, "down-leg"), mk(2, "patch")]
+        cfgs = [mk(1, "wall-above"), mk(1, "down-leg"), mk(2, "overshoot")]
     else:
-        for kind in ("patch", "wall-below", "wall-above", "down-leg", "downward"):
+        for kind in ("patch", "wall-below", "wall-above", "down-leg", "downward", "overshoot"):
             cfgs += [mk(1, kind), mk(1, kind), mk(2, kind), mk(2, kind, pt="pol" if kind != "downward" else "unpol")]
         cfgs += [mk(3, "wall-above"), mk(3, "patch"), mk(2, "down-leg", pt="tl"), mk(1, "wall-below", pt="tl")]
     return cfgs
